@@ -36,6 +36,7 @@ type vReplayFile struct {
 	Entry  string       `json:"entry"`
 	Script []vScriptVal `json:"script"`
 	Tol    float64      `json:"tol"`
+	RealModel bool      `json:"real_model"`
 }
 
 type vReplayResult struct {
@@ -223,3 +224,6 @@ func vRunReplays(entries map[string]func()) {
 // uninterpreted functions have no native counterpart: entries that use them cannot be replayed natively
 func vUF1(name string, x float64) float64    { panic(vDivergence{"uninterpreted function " + name + " has no native counterpart"}) }
 func vUF2(name string, x, y float64) float64 { panic(vDivergence{"uninterpreted function " + name + " has no native counterpart"}) }
+
+// vRealModel: the native run is IEEE arithmetic; the script file records which model produced it
+func vRealModel() bool { return vCur != nil && vCur.RealModel }
